@@ -226,7 +226,7 @@ http_req_parse_line(nng_http *conn, void *line)
 	*version = '\0';
 	version++;
 
-	if (nni_url_canonify_uri(uri) != 0) {
+	if ((*method == '\0') || (nni_url_canonify_uri(uri) != 0)) {
 		nni_http_set_status(conn, NNG_HTTP_STATUS_BAD_REQUEST, NULL);
 		return (NNG_OK);
 	}
